@@ -1,7 +1,7 @@
 (* Model/DokGetitem.v — DOK.__getitem__ (sparse/numba_backend/_dok.py), with the same branch structure:
      a key made of iterables only (also the empty key) takes _fancy_getitem: NotImplementedError unless
        there is one index sequence per axis, IndexError unless they have one length, then
-       new_data[i] = data[k_i] for the rows k_i = zip(*key)[i] PRESENT in the dict (no wrapping of
+       new_data[i] = data[k_i] for the rows k_i (the i-th tuple of zip over the key) PRESENT in the dict (no wrapping of
        negatives, no bounds check; booleans hash as 0/1), result of shape (len(key[0]),);
      every other key: self.asformat("coo")[key] (COO.from_iter: Model/Convert.v; the COO getitem:
        Model/CooIndex.v), a sparse result is converted back with DOK.from_coo.
